@@ -138,6 +138,16 @@ def judge(text, res, *, expect_statements=None, cls=''):
 
 
 def _judge(text, res, expect_statements, cls):
+    # syntax checking off: still total, still only the parser's own errors (nothing further is promised about the result)
+    try:
+        fsic.parse_model(text, check_syntax=False)
+    except OWN_ERRORS:
+        pass
+    except _Timeout:
+        raise
+    except BaseException as e:  # noqa: BLE001
+        res.fail('parse/' + _bucket(e) + '/check_syntax=False' + cls,
+                 f'parse_model({text!r}, check_syntax=False) raised {type(e).__name__}: {e}')
     try:
         symbols = fsic.parse_model(text)
     except OWN_ERRORS:
